@@ -87,6 +87,45 @@ for d in sorted(os.listdir(sd)):
         r = res.get(d)
         now = "?" if r is None else ("caught" + (" (correspondence only)" if r["violation_lines"] and "no-failing-input-found" in r["violation_lines"][0] else "") if r["caught"] else "MISSED")
     out.append("| %s | %s | %s | %s | %s |" % (d, m["property"], touches, first.get(d, "caught"), now))
+# neutral changes
+nd = os.path.join(V, "neutral")
+if os.path.isdir(nd) and os.path.exists(os.path.join(nd, "RESULTS.json")):
+    nres = json.load(open(os.path.join(nd, "RESULTS.json")))
+    nfirst_r = json.load(open(os.path.join(nd, "FIRST_RESULTS.json"))) if os.path.exists(os.path.join(nd, "FIRST_RESULTS.json")) else {}
+    rows, nq, na, nrj, nfa = [], 0, 0, 0, 0
+    for d in sorted(os.listdir(nd)):
+        mp = os.path.join(nd, d, "meta.json")
+        if not os.path.exists(mp):
+            continue
+        m = json.load(open(mp))
+        r = nres.get(d) or {}
+        f1 = nfirst_r.get(d, "quiet")
+        if f1 != "quiet":
+            nfa += 1
+        if m.get("status") == "rejected":
+            now = "rejected: the change does break the property (%s)" % m.get("rejected_reason", "")[:160]; nrj += 1
+        elif r.get("quiet"):
+            now = "quiet"; nq += 1
+        elif r.get("quiet") is None:
+            now = "?"
+        else:
+            nf = any("no-failing-input-found" in l for c in r.get("checks", {}).values() for l in c["violation_lines"])
+            now = "alarm (no-failing-input-found)" if nf else "ALARM"; na += 1
+        rows.append("| %s | %s | %s | %s | %s |" % (d, m["property"], ", ".join(m.get("touches", [])), f1, now))
+    out += ["", "### 7.1 Neutral changes: false-alarm measurement", "",
+            "The converse experiment.  Fresh sub-agents, again given only the property text and a scratch worktree, wrote three",
+            "changes per property that KEEP the property true and that a maintainer could merge: (1) an internal rewrite with",
+            "identical external behaviour, (2) a different choice where the property leaves one free (allocation order, start",
+            "value of an identifier, suggested value in a Nak, wire order of independent items, error text, timing inside a",
+            "bound), (3) hardening that only rejects what the property lets the code reject.  Kept under `neutral/<id>/`",
+            "(patch.diff, README.md with the author's clause-by-clause argument), run with `lib/run_neutral.py`.  An alarm was",
+            "triaged by the property's builder against the property text: when the change really preserves the property the",
+            "check demanded more than the property states — a false alarm, corrected in the machinery (admissible-choice",
+            "oracle in the model with the theorems re-proved for every admissible choice; coarser projection; 'may reject'",
+            "classes), with every seeded change re-run afterwards so that no detection was lost; when the author was wrong the",
+            "change is marked rejected with the failing input.  `first` = on arrival, `now` = current check.",
+            "Totals: %d changes; %d alarmed on arrival; now %d quiet, %d alarm, %d rejected (really property-breaking)." % (len(rows), nfa, nq, na, nrj), "",
+            "| id | property | touches | first | now |", "|---|---|---|---|---|"] + rows
 # round statistics
 rounds = {"m": [0, 0], "n": [0, 0], "q": [0, 0], "r": [0, 0]}
 tot = missed_now = retired = 0
